@@ -138,6 +138,22 @@ ALL['C10'] = {
         {'name': 'Eve', 'id': None, 'reached': [0, 1], 'n_entry': 1}, {'name': 'Eve', 'id': None, 'reached': [1], 'n_entry': 0}])),
 }
 
+ttcl = lang([asset('Host', [step('access', ttc={'type': 'multiplication', 'lhs': {'type': 'division', 'lhs': fun('Exponential', 0.1), 'rhs': fun('Gamma', 1.5, 2.0)},
+                                             'rhs': {'type': 'number', 'value': 3.0}})])], [assoc('Seq', 'Host', 'prev', 'Host', 'nxt')])
+ALL['C04'] = {
+    'ttc-three-factor-chain': ('roundtrip', {'spec': ttcl, 'opts': {}}),
+}
+ALL['C15'] = {
+    'association-with-both-ends-unknown': ('illformed', {'spec': seqlang1, 'mutation': [3, 0]}),
+    'setop-common-ancestor-over-approximation': ('wellformed', {'spec': ALL['C01']['setop-common-ancestor-subtype'][1]['spec'],
+                                                                'models': [ALL['C01']['setop-common-ancestor-subtype'][1]['model']]}),
+}
+ALL['C17'] = {
+    'truncated-root-file': ('generated-programs', {'spec': seqlang1, 'layout': None, 'file': 0, 'mutation': ['truncate', 25, 0]}),
+    'damaged-included-file': ('generated-programs', {'spec': seqlang1, 'layout': {'assign': [0, 0, 0, 0, 1, 1], 'parent': [0, 0], 'repeat': []},
+                                                     'file': 0, 'mutation': ['truncate', 2, 0]}),
+}
+
 if __name__ == '__main__':
     for pid, cases in ALL.items():
         out = os.path.join(ROOT, pid)
